@@ -99,7 +99,13 @@ func concOp(name string, g int) string {
 		m, e1 := mxj.NewMapXml(privDoc(g), true)
 		ms, e2 := mxj.NewMapXmlSeq(privDoc(g))
 		mj, e3 := mxj.NewMapJson([]byte(fmt.Sprintf(`{"p":[%d,{"q":"%d"}]}`, g, g)))
-		return fmt.Sprint(tagged.CanonGo(m), e1, tagged.CanonGo(map[string]interface{}(ms)), e2, tagged.CanonGo(mj), e3)
+		// the reader entry points, on readers WITHOUT a ReadByte method (files, connections): the package's own byte adaptors
+		mr, e4 := mxj.NewMapXmlReader(hideByteReader{bytes.NewReader(privDoc(g))})
+		mw, raw, e5 := mxj.NewMapXmlReaderRaw(hideByteReader{bytes.NewReader(privDoc(g))})
+		sr, e6 := mxj.NewMapXmlSeqReader(hideByteReader{bytes.NewReader(privDoc(g))})
+		jr, e7 := mxj.NewMapJsonReader(hideByteReader{strings.NewReader(fmt.Sprintf(`{"p":[%d,{"q":"%d"}]} `, g, g))})
+		return fmt.Sprint(tagged.CanonGo(m), e1, tagged.CanonGo(map[string]interface{}(ms)), e2, tagged.CanonGo(mj), e3,
+			tagged.CanonGo(mr), e4, tagged.CanonGo(mw), string(raw), e5, tagged.CanonGo(map[string]interface{}(sr)), e6, tagged.CanonGo(jr), e7)
 	case "encPriv":
 		m := mxj.Map{"p": map[string]interface{}{"-g": g, "q": []interface{}{g, "x", map[string]interface{}{"r": g}}, "#text": fmt.Sprint("t<", g)}}
 		x, e1 := m.Xml()
@@ -395,6 +401,72 @@ func replayPure(line []byte, a *Acc) {
 		keys[segs[len(segs)-1]] = true
 	}
 	paths = append(paths, "*", "*.*", "zz", "a[0]", "a.b[1]")
+	// indexed variants of every path (each segment plain, [0] or [1]) and sub-key conditions taken from the content
+	base := append([]string(nil), paths...)
+	seen := map[string]bool{}
+	for _, p := range paths {
+		seen[p] = true
+	}
+	for _, p := range base {
+		segs := strings.Split(p, ".")
+		if len(segs) > 3 || strings.ContainsAny(p, "[*") {
+			continue
+		}
+		total := 1
+		for range segs {
+			total *= 3
+		}
+		for c := 1; c < total; c++ {
+			q := make([]string, len(segs))
+			x := c
+			for i, sg := range segs {
+				switch x % 3 {
+				case 1:
+					q[i] = sg + "[0]"
+				case 2:
+					q[i] = sg + "[1]"
+				default:
+					q[i] = sg
+				}
+				x /= 3
+			}
+			if v := strings.Join(q, "."); !seen[v] && len(paths) < 400 {
+				seen[v] = true
+				paths = append(paths, v)
+			}
+		}
+	}
+	condSet := map[string]bool{"a:x": true, "!b:*": true}
+	var walk func(v interface{})
+	walk = func(v interface{}) {
+		switch x := v.(type) {
+		case map[string]interface{}:
+			for k, e := range x {
+				switch sv := e.(type) {
+				case string:
+					condSet[k+":"+sv] = true
+					condSet["!"+k+":"+sv] = true
+				case bool:
+					condSet[fmt.Sprintf("%s:%v:bool", k, sv)] = true
+				case float64:
+					condSet[fmt.Sprintf("%s:%v:num", k, sv)] = true
+				}
+				walk(e)
+			}
+		case []interface{}:
+			for _, e := range x {
+				walk(e)
+			}
+		}
+	}
+	walk(map[string]interface{}(mv))
+	var conds []string
+	for c := range condSet {
+		if !strings.Contains(strings.TrimPrefix(c, "!"), "::") && len(conds) < 12 {
+			conds = append(conds, c)
+		}
+	}
+	sort.Strings(conds)
 	n := 0
 	check := func(name string, fn func()) bool {
 		n++
@@ -411,9 +483,14 @@ func replayPure(line []byte, a *Acc) {
 	ok := true
 	for _, p := range paths {
 		p := p
-		ok = ok && check("ValuesForPath", func() { mv.ValuesForPath(p); mv.ValuesForPath(p, "a:x") })
+		ok = ok && check("ValuesForPath", func() { mv.ValuesForPath(p) })
+		for _, c := range conds {
+			c := c
+			ok = ok && check("ValuesForPath+subkeys", func() { mv.ValuesForPath(p, c) })
+			ok = ok && check("Exists+subkeys", func() { mv.Exists(p, c) })
+		}
 		ok = ok && check("ValueForPath", func() { mv.ValueForPath(p); mv.ValueForPathString(p); mv.ValueOrEmptyForPathString(p) })
-		ok = ok && check("Exists", func() { mv.Exists(p); mv.Exists(p, "!b:*") })
+		ok = ok && check("Exists", func() { mv.Exists(p) })
 		ok = ok && check("Elements/Attributes", func() { mv.Elements(p); mv.Attributes(p) })
 		if !ok {
 			return
@@ -422,6 +499,10 @@ func replayPure(line []byte, a *Acc) {
 	for k := range keys {
 		k := k
 		ok = ok && check("ValuesForKey", func() { mv.ValuesForKey(k); mv.ValueForKey(k, "a:x") })
+		for _, c := range conds {
+			c := c
+			ok = ok && check("ValuesForKey+subkeys", func() { mv.ValuesForKey(k, c) })
+		}
 		ok = ok && check("PathsForKey", func() { mv.PathsForKey(k); mv.PathForKeyShortest(k) })
 	}
 	ok = ok && check("LeafNodes", func() { mv.LeafNodes(); mv.LeafNodes(true); mv.LeafPaths(); mv.LeafValues(true) })
